@@ -49,6 +49,19 @@ theorem C16_client (s : Store) (id : Bytes) :
   · cases s.get id <;> simp [hr]
   · simp [hr]
 
+/-- a storage read that fails is never served as "no checkpoint" (404, which the client turns into the
+    "does not exist" signal feeders act on) nor as a checkpoint: the only answers with status 200 or 404 are the
+    fault-free ones -/
+theorem C16_read_error_is_not_absence (s : Store) (id : Bytes) (h : routeMatch id = true) :
+    (getCheckpointF true s id).status = 500 ∧ client (getCheckpointF true s id) = .err ∧
+    getCheckpointF false s id = Api.getCheckpoint s id := by
+  unfold getCheckpointF client; simp [h]
+
+/-- a log list answered with 200 is exactly the stored set, whatever the storage did -/
+theorem C16_logs_200_exact (f : Bool) (s : Store) (h : (getLogsF f s).1 = 200) :
+    (getLogsF f s).2 = getLogs s ∧ f = false := by
+  unfold getLogsF at *; cases f <;> simp_all
+
 /-- the log list is exactly the set of logs with an accepted update: a refused submission creates no
     entry (from the frame property of refusals), an accepted one creates exactly its own -/
 theorem C16_logs_list_refused (cfg : Cfg) (s : Store) (r : Req) (f : Faults)
